@@ -165,7 +165,7 @@ func (p *Prog) constGlobal(gl *ssa.Global) bool {
 // LoadContracts parses verif_contracts*.go of the loaded repo packages and the stdlib spec files.
 func (p *Prog) LoadContracts() error {
 	var paths []string
-	for path := range p.ssaPkgs {
+	for path := range p.pkgs {
 		paths = append(paths, path)
 	}
 	sort.Strings(paths)
@@ -196,7 +196,7 @@ func (p *Prog) LoadContracts() error {
 			}
 			seen[f] = true
 			if err := p.db.ParseFile(f, path); err != nil {
-				return err
+				p.db.FileErrs[f] = err
 			}
 		}
 	}
@@ -207,12 +207,14 @@ func (p *Prog) LoadContracts() error {
 			return err
 		}
 	}
-	for _, fc := range p.db.Funcs {
-		if strings.Contains(fc.File, "/specs/stdlib/") {
-			fc.Trusted = true
+	for _, cs := range p.db.Funcs {
+		for _, fc := range cs {
+			if strings.Contains(fc.File, "/specs/stdlib/") {
+				fc.Trusted = true
+			}
 		}
 	}
-	return nil
+	return p.db.Validate()
 }
 
 // All packages of the transitive closure, for resolving qualified names in contracts.
